@@ -6,6 +6,6 @@ cd /repo
 git status --porcelain | grep -q . && { echo "repo dirty"; exit 1; }
 git apply "$P"
 cd /verif
-./check all --scratch 2>&1 | grep -v "^KNOWN-FINDING" | grep -E "^VIOLATION|^  C[0-9]|violations \(" | grep -v " 0 violations" || true
+./check all --scratch 2>&1 | grep -v "^KNOWN-FINDING" | grep -E "^VIOLATION|^  C[0-9]|violations \(|^snelcheck:|^error" | grep -v " 0 violations" || true
 git -C /repo checkout -- .
 git -C /repo status --porcelain | head -3
